@@ -61,15 +61,6 @@ structure RunSt where
 
 namespace Chan
 
-def riTake : Nat → Option Nat → RI → St → List Bytes → OpRes × St
-  | 0, _, _, s, acc => (.chunks acc (some .fuel), s)
-  | _ + 1, some 0, _, s, acc => (.chunks acc none, s)
-  | f + 1, k, ri, s, acc =>
-    match riNext ri s with
-    | (.done, _, s) => (.chunks acc none, s)
-    | (.err e, _, s) => (.chunks acc (some e), s)
-    | (.chunk b, ri, s) => riTake f (k.map (· - 1)) ri s (acc ++ [b])
-
 def ofUnit : Res Unit → OpRes × St
   | (.ok _, s) => (.unit, s)
   | (.error e, s) => (.err e, s)
@@ -92,8 +83,8 @@ def runOp (op : Op) (r : RunSt) : OpRes × RunSt :=
     | (.ok b, s) => (.bytes b, { r with st := s })
     | (.error e, s) => (.err e, { r with st := s })
   | .readIter m t k =>
-    let (res, s) := riTake (fuelFor s) k (riStart m t s) s []
-    (res, { r with st := s })
+    let ((cs, e), s) := riTake (fuelFor s) k (riStart m t s) s []
+    (.chunks cs e, { r with st := s })
   | .readline e t =>
     match readline e t s with
     | (.ok b, s) => (.text (text b), { r with st := s })
@@ -172,7 +163,7 @@ def bool (s : String) : Option Bool :=
   if s == "1" then some true else if s == "0" then some false else none
 
 def listOf {α} (f : String → Option α) (s : String) : Option (List α) :=
-  if s == "-" then some [] else (s.splitOn ",").mapM f
+  if s == "." then some [] else (s.splitOn ",").mapM f
 
 def piece (s : String) : Option Piece :=
   match s.splitOn "@" with
@@ -230,7 +221,7 @@ def excOf (s : String) : Option Exc :=
   | _ => none
 
 def sepBy (sep : String) (l : List String) : String :=
-  if l.isEmpty then "-" else sep.intercalate l
+  if l.isEmpty then "." else sep.intercalate l
 
 def chars (t : List Char) : String := Bytes.toHex (String.ofList t).toUTF8.toList
 def charsOf (s : String) : Option (List Char) := do
